@@ -372,6 +372,13 @@ def run_c18(prop, tier, seed):
     return ev
 
 
+def _known():
+    kp = os.path.join(ROOT, 'known_findings.json')
+    if not os.path.exists(kp):
+        return {}
+    return {f['id']: f for f in json.load(open(kp)).get('findings', [])}
+
+
 def _macro_dumps():
     fam = G.macro_family()
     for i, p in enumerate(fam):
@@ -395,7 +402,30 @@ def c18_macro_part(prop, tier, seed, ev, env_globals):
             continue
         ins = d['instrs']
         exempt = set(d['undeclared']) | env_globals | {'self'}
-        queries = [('root', E.sym_unbound_reads(ins, exempt, unroll=unroll, macros=True))]
+        own = set(p.get('selfrec') or [])
+        # known finding KF-C18-recursive-macro-name: the name of a self-recursive macro is enclosed (= looked up)
+        # at its definition, before the macro is stored.  That read is queried on its own; every other read of
+        # the same program stays in the main query.
+        queries = [('root', E.sym_unbound_reads(ins, exempt | own, unroll=unroll, macros=True))]
+        if own:
+            v2, i2, dt2, _ = E.sym_unbound_reads(ins, exempt - own, unroll=unroll, macros=True, only=own)
+            z3s += dt2
+            nq += 1
+            if v2 == 'sat':
+                o = run_tool('reads', [dict(src=p['src'], ctx=G.macro_contexts()[1])])[0]
+                if own & (set(o['reads']) - set(o['undeclared']) - set(o['globals'])):
+                    kf = _known().get('KF-C18-recursive-macro-name')
+                    if kf:
+                        if not any(k[1]['id'] == kf['id'] for k in ev['known_hits']):
+                            ev['known_hits'].append((dict(replay=None), kf))
+                    else:
+                        h = hashlib.sha1(p['src'].encode()).hexdigest()[:10]
+                        rp = os.path.join(nativelib.replay_dir(), '%s-B-%s.json' % (prop, h))
+                        json.dump(dict(property=prop, engine='B', program=p['src'], reported=d['undeclared'], unit='root', bytecode_path=_js(i2), macro_family=True,
+                                       native=dict(context=G.macro_contexts()[1], reads=o['reads'], unreported_reads=sorted(own)), how='bin/check %s --replay %s' % (prop, rp)), open(rp, 'w'), indent=1)
+                        ev['violations'].append(dict(replay=rp, failed=[dict(desc='render of %r looks up its own macro name %s which undeclared_variables() = %s does not report' % (p['src'][:120], sorted(own), d['undeclared']), loc='Enclose at the macro definition')]))
+            else:
+                nun += 1
         for name, entry, bpc, enc in E.macro_units(ins):
             queries.append(('macro %s@%d' % (name, entry),
                             E.sym_unbound_reads(ins, exempt | set(enc) | set(E.MACRO_SPECIALS), unroll=unroll, entry=entry, macros=True)))
